@@ -32,7 +32,8 @@ def emit_std(case, ranks, o, model):
     if k == 'def_var_fill': return case.op(ranks, 'def_var_fill', f=0, v=o['v'], nofill=int(o.get('nofill', 0)), xtype=(D.XT_NAME[o['xtype']] if o.get('val') is not None else None), val=o.get('val'))
     if k == 'put_att':
         xt = o['xtype']
-        vals = list(o['vals']) if isinstance(o['vals'], (bytes, bytearray)) else o['vals']
+        vals = o.get('emit_vals', o['vals'])
+        vals = list(vals) if isinstance(vals, (bytes, bytearray)) else vals
         return case.op(ranks, 'put_att', f=0, v=o.get('v', -1), name=nm(o['name']), xtype=D.XT_NAME.get(xt, xt), n=len(vals), vals=vals if len(vals) else None, mem=o.get('mem'))
     if k == 'del_att': return case.op(ranks, 'del_att', f=0, v=o.get('v', -1), name=nm(o['name']))
     if k == 'rename_att': return case.op(ranks, 'rename_att', f=0, v=o.get('v', -1), name=nm(o['name']), newname=nm(o['newname']))
@@ -172,10 +173,11 @@ class HistoryBFS:
                     cause = self.classify(node, o, r, lo, None, rc, None) if self.classify else None
                     self.ck.violation(('rc', o['op'], cause or '%s%s' % (node.model.mode, '/ro' if node.model.rdonly else '')), text,
                                       name + ': rc=%d, documented outcome set %s (mode %s, rdonly=%s)' % (rc, sorted(rcs), node.model.mode, node.model.rdonly)); continue
-                newm = staged if (staged is not None and (rc == 0 or o['op'] in ('close', 'abort'))) else node.model
+                effective = rc == 0 or o['op'] in ('close', 'abort') or (rc == D.NC_ERANGE and bool(o.get('erange')))
+                newm = staged if (staged is not None and effective) else node.model
                 if s1 is not None:
                     sw0 = r.r(0, s0).json(); sw1 = r.r(0, s1).json()
-                    if rc != 0:
+                    if not effective:
                         if sw0 != sw1:
                             diff = [k for k in sw1 if sw0.get(k) != sw1.get(k)]
                             self.ck.violation(('effect_of_rejected_call', o['op'], ','.join(diff)), text, name + ': rc=%d but the inquiry sweep changed in %s: before %s after %s' % (rc, diff, {k: sw0.get(k) for k in diff}, {k: sw1.get(k) for k in diff})); continue
